@@ -75,6 +75,7 @@ func inflateDoc(entry string, good bool) []byte {
 	switch entry {
 	case "validate", "info", "predecodeResp":
 		rs := genuineRoot()
+		rs.InResponseTo = idp.S("_req-1-" + nonASCIIRun)
 		root := b.ResponseEl(rs)
 		spec := world.Content("GA1")
 		if !good && entry != "predecodeResp" {
@@ -88,6 +89,7 @@ func inflateDoc(entry string, good bool) []byte {
 		doc = idp.Plain(root)
 	case "predecodeLogout", "logoutResp":
 		s := logoutSpec("resp", "_lresp-1")
+		s.InResponseTo = idp.S("_req-7-" + nonASCIIRun)
 		if !good {
 			if entry == "predecodeLogout" {
 				s = logoutSpec("req", "_lr-1")
@@ -100,6 +102,7 @@ func inflateDoc(entry string, good bool) []byte {
 		doc = idp.Plain(root)
 	case "logoutReq":
 		s := logoutSpec("req", "_lr-1")
+		s.NameID = idp.S("alice-" + nonASCIIRun + "@example.com")
 		if !good {
 			s.Destination = idp.S("https://evil.example/slo")
 		}
@@ -110,6 +113,10 @@ func inflateDoc(entry string, good bool) []byte {
 	inflDocs[key] = doc
 	return doc
 }
+
+// nonASCIIRun: several kilobytes of three-octet characters early in every document of this family, so that whatever
+// block or buffer boundary a decompressor has falls inside a character
+var nonASCIIRun = strings.Repeat("\u4e2d\u6587", 700)
 
 var levelOf = map[string]int{"deflate1": 1, "deflate6": 6, "deflate9": 9, "stored": 0, "huffman": flate.HuffmanOnly}
 
